@@ -62,6 +62,7 @@ def make_world(env, rng, kind, lb_params=None, open_delay=None, get_servers_dela
       self.created_step = w.step
       self.removed_step = None   # step at which the balancer was told it left / contracted it
       self.opening = None
+      self.close_raises = False
       w.channels.append(self)
       if w.dispatching is not None:
         w.created_in_dispatch.append(self)
@@ -103,6 +104,11 @@ def make_world(env, rng, kind, lb_params=None, open_delay=None, get_servers_dela
       self.close_steps.append(w.step)
       self._state = CLOSED
       env.emit('chan.close', inc=self.inc)
+      if self.close_raises:
+        # closing a connection whose peer is already gone may report an error
+        self.close_raises = False
+        import errno
+        raise OSError(errno.ENOTCONN, 'Transport endpoint is not connected')
 
     def set_down(self):
       self.down = True
@@ -192,6 +198,8 @@ def make_world(env, rng, kind, lb_params=None, open_delay=None, get_servers_dela
         what, m = self.queue.get()
         try:
           (self.on_join if what == 'join' else self.on_leave)(m)
+        except Exception as e:  # noqa: like the ZooKeeper provider's worker: log and carry on
+          w.callback_errors.append((what, str(m), repr(e)))
         finally:
           self.pending -= 1
 
@@ -214,6 +222,7 @@ def make_world(env, rng, kind, lb_params=None, open_delay=None, get_servers_dela
       env.emit('member.leave', ep=str(ep))
       self.notify('leave', m)
   w.ss = Scripted()
+  w.callback_errors = []
 
   from scales.loadbalancer.heap import HeapBalancerSink
   from scales.loadbalancer.aperture import ApertureBalancerSink
